@@ -244,9 +244,40 @@ func execute(ops []op, base int64, sleeping bool) (out []obs, ok bool) {
 	return out, ok
 }
 
-func revTerm(v revObs) string {
-	return vgen.App("Build_revoc", vgen.N(v.IA), vgen.N(v.If), vgen.N(v.Ts), vgen.N(v.TTL), vgen.N(v.ID))
+// b0 is sampled once per run. Large numerals are slow to parse in Coq, so every
+// time value is printed as a small offset from the constant B0 of the prelude
+// (and the two ISD-AS numbers and 2^32-1 as constants).
+var b0 int64
+
+func tN(x uint64) string {
+	d := int64(x) - b0
+	switch {
+	case x < 1<<20:
+		return vgen.N(x)
+	case x == math.MaxUint32:
+		return "U32"
+	case d >= 0 && d < 1<<24:
+		return fmt.Sprintf("(T %d)", d)
+	case d < 0 && d > -(1<<24):
+		return fmt.Sprintf("(M %d)", -d)
+	}
+	return vgen.N(x)
 }
+
+func iaN(ia uint64) string {
+	for i, k := range pool {
+		if uint64(k.IA) == ia {
+			return fmt.Sprintf("IA%d", i)
+		}
+	}
+	return vgen.N(ia)
+}
+
+func revArgs(v revObs) string {
+	return strings.Join([]string{iaN(v.IA), vgen.N(v.If), tN(v.Ts), tN(v.TTL), vgen.N(v.ID)}, " ")
+}
+
+func revTerm(v revObs) string { return "Build_revoc " + revArgs(v) }
 
 type hist struct {
 	sleeping bool
@@ -273,14 +304,14 @@ func emit(run *vgen.Run, h *hist) {
 			run.Tally("op:sleep")
 			continue
 		}
-		now := vgen.N(uint64(h.base + T))
+		now := tN(uint64(h.base + T))
 		ob := h.out[i]
 		anyErr = anyErr || ob.Err
 		switch o.Kind {
 		case opInsert:
 			rv := revOf(o.rev(h.base))
-			evs = append(evs, vgen.Pair(now, vgen.App("Insert", revTerm(rv))))
-			res = append(res, vgen.App("RIns", vgen.B(ob.B)))
+			evs = append(evs, "I "+now+" "+revArgs(rv))
+			res = append(res, "RIns "+vgen.B(ob.B))
 			if o.Abs {
 				key = append(key, fmt.Sprintf("I%d/abs%d+%d/%d", o.Key, o.TsAbs, o.TTLAbs, o.Link))
 			} else {
@@ -307,21 +338,21 @@ func emit(run *vgen.Run, h *hist) {
 			}
 		case opGet:
 			k := pool[o.Key]
-			evs = append(evs, vgen.Pair(now, vgen.App("Get", vgen.Pair(vgen.N(uint64(k.IA)), vgen.N(uint64(k.IfID))))))
+			evs = append(evs, "G "+now+" "+iaN(uint64(k.IA))+" "+vgen.N(uint64(k.IfID)))
 			if ob.Rev != nil {
-				res = append(res, vgen.App("RGet", vgen.Opt(revTerm(*ob.Rev), true)))
+				res = append(res, "RG "+revArgs(*ob.Rev))
 				run.Tally("get:hit")
 				desc = append(desc, map[string]any{"get": o.Key, "t": T, "ts_rel": int64(ob.Rev.Ts) - h.base,
 					"ttl": ob.Rev.TTL, "link": ob.Rev.ID})
 			} else {
-				res = append(res, "(RGet None)")
+				res = append(res, "RGet None")
 				run.Tally("get:miss")
 				desc = append(desc, map[string]any{"get": o.Key, "t": T, "result": nil})
 			}
 			key = append(key, fmt.Sprintf("G%d", o.Key))
 		case opDel:
-			evs = append(evs, vgen.Pair(now, "DeleteExpired"))
-			res = append(res, vgen.App("RDel", vgen.N(uint64(ob.N))))
+			evs = append(evs, "D "+now)
+			res = append(res, "RDel "+vgen.N(uint64(ob.N)))
 			key = append(key, "D")
 			desc = append(desc, map[string]any{"delete_expired": ob.N, "t": T})
 			if ob.N > 0 {
@@ -330,8 +361,8 @@ func emit(run *vgen.Run, h *hist) {
 				run.Tally("cleanup:zero")
 			}
 		case opAll:
-			evs = append(evs, vgen.Pair(now, "GetAll"))
-			res = append(res, vgen.App("RAll", vgen.ListOf(ob.All, revTerm)))
+			evs = append(evs, "A "+now)
+			res = append(res, "RAll "+vgen.ListOf(ob.All, revTerm))
 			key = append(key, "A")
 			desc = append(desc, map[string]any{"get_all": len(ob.All), "t": T})
 			run.Tally(fmt.Sprintf("getall:%d", len(ob.All)))
@@ -351,10 +382,19 @@ func emit(run *vgen.Run, h *hist) {
 func main() {
 	run := vgen.Flags("C31")
 	run.Imports = []string{"Model.RevCache"}
-	run.Prelude = "Import RevCache."
+	b0 = time.Now().Unix()
+	run.Prelude = fmt.Sprintf("Import RevCache.\nDefinition B0 : N := %d.\nDefinition U32 : N := 4294967295.\n"+
+		"Definition IA0 : N := %d.\nDefinition IA1 : N := %d.\nDefinition IA2 : N := %d.\n"+
+		"Definition T (d : N) : N := B0 + d.\nDefinition M (d : N) : N := B0 - d.\n"+
+		"Definition I (t a i ts ttl id : N) : event := (t, Insert (Build_revoc a i ts ttl id)).\n"+
+		"Definition G (t a i : N) : event := (t, Get (a, i)).\n"+
+		"Definition D (t : N) : event := (t, DeleteExpired).\nDefinition A (t : N) : event := (t, GetAll).\n"+
+		"Definition RG (a i ts ttl id : N) : res := RGet (Some (Build_revoc a i ts ttl id)).",
+		b0, uint64(pool[0].IA), uint64(pool[1].IA), uint64(pool[2].IA))
 	run.CheckFn = "RevCache.check"
 	run.DiagFn = "RevCache.diag"
 	run.CaseType = "RevCache.case"
+	run.ShardSize = 250
 	run.Rule = "histories of 8-30 operations (55% Insert, 23% Get, 8% DeleteExpired, 6% GetAll, sleeps) on a fresh " +
 		"memrevcache over 3 interfaces (2 ASes); timestamps from a pool of 10 values (ties), expirations " +
 		"already-expired / short / far-future with >= 2 s margin to every instant an operation can run, 4% " +
